@@ -150,7 +150,10 @@ def _positions_layout(repo: Repo, cls: ClassInfo):
             return [Sym(f"angle{i}") for i in range(num)]
         if nm == "FanPattern":
             counter["n"] += 1
-            return Obj(f"pattern{counter['n']}")
+            pat_obj = Obj(f"pattern{counter['n']}")
+            pat_obj.set("center_arg", ev.eval(call.args[0]) if call.args else None)
+            captured.setdefault("patterns", {})[pat_obj._name] = pat_obj
+            return pat_obj
         if isinstance(call.func, ast.Attribute) and call.func.attr in ("get_inner_points", "get_outer_points"):
             pat = ev.eval(call.func.value)
             angles = ev.eval(call.args[0])
@@ -161,6 +164,8 @@ def _positions_layout(repo: Repo, cls: ClassInfo):
             captured["positions"] = ev.eval(call.args[0])
             captured["quad_map"] = ev.eval(call.args[1])
             raise Done()
+        if name in ("np.array", "np.asarray", "numpy.array", "numpy.asarray") and call.args:
+            return ev.eval(call.args[0])
         if name and name.split(".")[0] in ("np", "numpy", "f"):
             return Sym(f"geom:{nm}")
         return NO_MATCH
@@ -180,6 +185,7 @@ def _positions_layout(repo: Repo, cls: ClassInfo):
         raise AnalysisError(f"{cls.qualname}.__init__: positions layout not evaluable: {err}") from err
     if "positions" not in captured:
         raise AnalysisError(f"{cls.qualname}.__init__: super().__init__(positions, quad_map) not reached")
+    _LAYOUT_PATTERNS[cls.qualname] = captured.get("patterns", {})
     return captured["positions"], captured["quad_map"]
 
 
@@ -252,6 +258,135 @@ def radial_convention(repo: Repo) -> RuleRun:
 
 
 radial_convention.rule_id = "C11.RADIAL-CONVENTION"
+
+
+def arc_rings(repo: Repo) -> RuleRun:
+    """The round sketches generate their points ring by ring (FanPattern.get_inner_points / get_outer_points: equal distance
+    from the pattern's centre). add_edges() is evaluated on the laid-out faces: an Origin arc must join two neighbouring points
+    of ONE ring, be centred where that ring's pattern is, and a ring is round as a whole - if one of its segments carries the
+    arc, every segment that is a face edge does (an index tuple shifted by one puts an arc about centre 2 between the two
+    half-circles of an Oval and leaves the last segment of the second half-circle straight)."""
+    r = RuleRun(PROP, "C11.ARC-RINGS", floor=30, what="Origin arcs of the round sketches: both ends on one generated ring, centred at that ring's pattern centre, and every segment of a round ring carries the arc")
+    r.exhaustive = True
+    disk_base = repo.cls("construct.flat.sketches.disk.DiskBase")
+    face_cls = repo.cls("construct.flat.face.Face")
+    n_cls = 0
+    for cls in sketches.sketch_classes_with_quad_map(repo):
+        if disk_base not in repo.mro(cls):
+            continue
+        n_cls += 1
+        positions, qm = _positions_layout(repo, cls)
+        add_edges = repo.find_method(cls, "add_edges")
+        r.require(add_edges is not None, f"{cls.qualname}: add_edges vanished")
+        faces = []
+        for i, q in enumerate(qm):
+            fc = Obj(f"face{i}", cls=face_cls)
+            pts = []
+            for k in q:
+                pt = Obj(f"p{k}")
+                pt.set("position", ("pos", k))
+                pts.append(pt)
+            fc.set("points", pts)
+            fc.set("center", ("face-centre", i))
+            fc.set("index", i)
+            faces.append(fc)
+        arcs: Dict[Tuple[int, int], Any] = {}
+
+        def hook(ev: Evaluator, call: ast.Call, name, arcs=arcs):
+            nm = call.func.attr if isinstance(call.func, ast.Attribute) else (name or "").split(".")[-1]
+            if nm == "Origin":
+                return ("Origin", ev.eval(call.args[0]))
+            if nm == "add_edge" and isinstance(call.func, ast.Attribute):
+                fc = ev.eval(call.func.value)
+                corner, data = ev.eval(call.args[0]), ev.eval(call.args[1])
+                if isinstance(fc, Obj) and fc.has("index") and isinstance(corner, int):
+                    if isinstance(data, tuple) and data and data[0] == "Origin":
+                        arcs[(fc.get("index"), corner)] = data[1]
+                    return None
+            if nm == "add_spline_edges":
+                return None
+            return NO_MATCH
+
+        this = Obj("sketch", cls=cls)
+        this.set("_faces", faces)
+        ev = Evaluator(repo=repo, module=add_edges.module, call_hook=hook)
+        ev.opaque_arith = True
+        try:
+            ev.call_funcinfo(add_edges, [this])
+        except (NotEvaluable, Raised) as err:
+            raise AnalysisError(f"{cls.qualname}.add_edges not evaluable on the laid-out faces: {err}") from err
+        r.require(bool(arcs), f"{cls.qualname}.add_edges attaches no Origin arc on the model")
+
+        def ring(k):
+            p = positions[k]
+            return (p[0], p[1]) if isinstance(p, tuple) else None
+
+        def centre_of(value):
+            """index of the position / pattern a centre expression denotes"""
+            if isinstance(value, tuple) and value and value[0] == "pos":
+                return positions[value[1]]
+            if isinstance(value, tuple) and value and value[0] == "face-centre":
+                rings_ = {ring(k) for k in qm[value[1]]}
+                if len(rings_) == 1 and None not in rings_:
+                    return ("centre-of-ring", next(iter(rings_))[1])
+            return value
+
+        # pattern name -> the constructor argument it is centred at
+        pattern_centre = _pattern_centres(repo, cls)
+        round_rings: Dict[Any, Any] = {}
+        for (fi, corner), centre in sorted(arcs.items()):
+            a, b = qm[fi][corner], qm[fi][(corner + 1) % 4]
+            ra, rb = ring(a), ring(b)
+            c = centre_of(centre)
+            ok_ring = ra is not None and ra == rb
+            want = pattern_centre.get(ra[1]) if ok_ring else None
+            ok_centre = ok_ring and (c == want or c == ("centre-of-ring", ra[1]))
+            r.check(
+                ok_ring and ok_centre,
+                add_edges,
+                f"{cls.name} face {fi} edge {corner}: arc between points {a},{b} of ring {ra} about its pattern's centre",
+                f"{cls.name}.add_edges puts an Origin arc on face {fi} edge {corner}, between points {a} ({ra}) and {b} ({rb}), centred at {c!r}: "
+                + ("the two ends are not neighbouring points of one generated ring - they are not equally far from any one centre, so the arc is not the circle the points were laid on" if not ok_ring else f"that ring is centred at {want!r}"),
+                add_edges.node,
+                key=f"{cls.name}:arc:{fi}.{corner}",
+            )
+            if ok_ring:
+                round_rings.setdefault(ra, set()).add(frozenset((a, b)))
+        # completeness: every face-edge segment of a round ring carries the arc
+        for rg, have in sorted(round_rings.items(), key=repr):
+            segs = {}
+            for fi, q in enumerate(qm):
+                for corner in range(4):
+                    a, b = q[corner], q[(corner + 1) % 4]
+                    if ring(a) == rg and ring(b) == rg and abs(positions[a][2] - positions[b][2]) in (1, _ring_count(positions, rg) - 1):
+                        segs.setdefault(frozenset((a, b)), []).append((fi, corner))
+            missing = {s: where for s, where in segs.items() if not any(w in arcs for w in where)}
+            r.check(
+                not missing,
+                add_edges,
+                f"{cls.name} ring {rg}: all {len(segs)} segments round",
+                f"{cls.name}.add_edges makes ring {rg} round on {len(segs) - len(missing)} of its {len(segs)} segments; straight: " + ", ".join(f"points {sorted(s)} (face {w[0][0]} edge {w[0][1]})" for s, w in sorted(missing.items(), key=lambda kv: sorted(kv[0]))[:4]) + " - the outline is a circle with a chord cut off",
+                add_edges.node,
+                key=f"{cls.name}:ring:{rg[0]}",
+            )
+    r.require(n_cls >= 5, f"only {n_cls} disk sketches examined")
+    return r
+
+
+def _ring_count(positions, rg) -> int:
+    return sum(1 for p in positions if isinstance(p, tuple) and (p[0], p[1]) == rg)
+
+
+def _pattern_centres(repo: Repo, cls: ClassInfo) -> Dict[str, Any]:
+    out = {}
+    for name, pat in _LAYOUT_PATTERNS.get(cls.qualname, {}).items():
+        out[name] = pat.get("center_arg")
+    return out
+
+
+_LAYOUT_PATTERNS: Dict[str, Dict[str, Any]] = {}
+
+arc_rings.rule_id = "C11.ARC-RINGS"
 
 
 # --------------------------------------------------------------------------------------------
@@ -507,4 +642,25 @@ def no_shared_parts(repo: Repo) -> RuleRun:
 
 no_shared_parts.rule_id = "C11.NO-SHARED-PARTS"
 
-RULES = [quad_map_rule, chop_coverage, chop_role, radial_convention, chain_source, mirror_pairing, trig_domain, fill_conformal, arc_side, affine_kinds, stack_chain, no_shared_parts]
+def moved_once(repo: Repo) -> RuleRun:
+    """'adjacent blocks share the vertices along their common faces' after the shape is placed: the lofts of the hemisphere (and every other composite) hand each face to the transformation exactly once. Same rule as C09.LINEAR-PARTS."""
+    from ..report import rebrand
+    from . import c09
+
+    return rebrand(c09.linear_parts(repo), PROP, "C11.MOVED-ONCE")
+
+
+moved_once.rule_id = "C11.MOVED-ONCE"
+
+
+def transform_routing(repo: Repo) -> RuleRun:
+    """Transformed stacks and tapered shapes (Frustum, Elbow: Scaling without origin) stay conformal: transform() scales every part of one entity about ONE origin, fixed before the first part moves. Same rule as C09.TRANSFORM-ROUTING."""
+    from ..report import rebrand
+    from . import c09
+
+    return rebrand(c09.transform_routing(repo), PROP, "C11.TRANSFORM-ROUTING")
+
+
+transform_routing.rule_id = "C11.TRANSFORM-ROUTING"
+
+RULES = [quad_map_rule, chop_coverage, chop_role, radial_convention, arc_rings, chain_source, mirror_pairing, trig_domain, fill_conformal, arc_side, affine_kinds, stack_chain, no_shared_parts, moved_once, transform_routing]
